@@ -202,7 +202,7 @@ P1, P2 = ("p", 1.0), ("p", 2.0)
 Q1, Q9 = ("q", 0.1), ("q", 0.9)
 ROLE_SETS = [["obs", "fcst"], ["fcst"], ["obs"], ["pit"], ["obs", P1], ["obs", P1, P2], ["obs", Q1],
              [Q1, Q9, "fcst", "obs"], ["fcst", "pit"]]
-FIELDS = ["obs", "fcst", "pit", "p1", "p2", "q0.1", "q0.9"]
+FIELDS = ["obs", "fcst", "pit", "p1", "p2", "q0.1", "q0.9", "e0"]      # e0: a one-member ensemble (one missing cell = no member at all)
 
 
 def h_dev(ctx):
@@ -260,7 +260,10 @@ def h_dev(ctx):
     if kind != "ok":
         ctx.fail("data-%s:%s" % (kind, site), stdout=out[-200:])
         return
-    sig = CD.check_requests(ctx, data, ref, ROLE_SETS, ["no", "time", "leadtime", "location", "month", "leadtimeday", "all"], "dev")
+    # a threshold no file stores: its probability comes from the ensemble, and a case where one file has no member is missing for all
+    ev = sorted(v for ai in inputs for v in ai.fields["e0"].values() if not gen.is_missing(v))
+    PE = ("p", (ev[len(ev) // 2] if ev else 0.0) + 0.0625)
+    sig = CD.check_requests(ctx, data, ref, ROLE_SETS + [["obs", PE], [("e", 0)]], ["no", "time", "leadtime", "location", "month", "leadtimeday", "all"], "dev")
     # identical case sets and identical observation values for all inputs
     for roles in (["obs", "fcst"], ["obs", P1]):
         base = None
